@@ -517,6 +517,8 @@ def c13(ctx):
         allo = S("refuse", "reset", "transient", "auth", "authtext")
         gens = [dict(rounds=1, attempts=2, outcomes=allo, sm=True), dict(rounds=1, attempts=1, outcomes=allo, sm=False),
                 dict(rounds=2, attempts=1, outcomes=S("refuse", "transient"), sm=True),
+                # STARTTLS on every connection; on a reconnection attempt the SERVER aborts the handshake with a TLS alert
+                dict(rounds=1 if q else 2, attempts=2, outcomes=S("tlsalert", "refuse", "reset"), sm=True),
                 # the application stops the manager and runs it again, losses before and after
                 dict(rounds=2 if q else 3, attempts=1, outcomes=S("refuse") if q else S("refuse", "reset"), sm=True, restarts=1)]
         if not q:
